@@ -3,6 +3,7 @@ package props
 import (
 	"fmt"
 	"sort"
+	"strconv"
 	"strings"
 
 	"golang.org/x/tools/go/ssa"
@@ -463,6 +464,53 @@ func runC09(c *eng.Ctx, thorough bool) {
 					c.OK(f, "on{verification failed} no write", v.Pos(), "failure edge never reaches a bucket write")
 				}
 			}
+			// each verification's own result is tested before the next operation is looked at
+			// (a later successful verification must not overwrite an earlier failure)
+			c.Clause("R3", "C09.5")
+			for _, v := range vr {
+				vv, _ := v.(ssa.Value)
+				var tests []ssa.Instruction
+				for _, b := range f.Blocks {
+					iff := eng.IfOf(b)
+					if iff == nil {
+						continue
+					}
+					bo, ok := iff.Cond.(*ssa.BinOp)
+					if !ok {
+						continue
+					}
+					for _, side := range []ssa.Value{bo.X, bo.Y} {
+						for _, o := range eng.Origins(side) {
+							if o.Val == vv {
+								tests = append(tests, iff)
+							}
+						}
+					}
+				}
+				site := "verification result tested before the next operation"
+				if len(tests) == 0 {
+					c.Violation(f, site, v.Pos(), "the result of "+eng.CalleeName(v.Common())+" is never tested", nil)
+					continue
+				}
+				target := func(in ssa.Instruction) bool {
+					for _, o := range vr {
+						if in == ssa.Instruction(o) {
+							return true
+						}
+					}
+					for _, w := range writes {
+						if in == w {
+							return true
+						}
+					}
+					return false
+				}
+				if h := eng.Reach(eng.Query{Fn: f, StartAfter: v, Barriers: tests, Target: target}); h != nil {
+					c.Violation(f, site, h.Instr.Pos(), "after "+eng.CalleeName(v.Common())+" the next verification (or a write) is reachable without testing its result: a later success overwrites an earlier failure and the writes are applied", h.Witness)
+				} else {
+					c.OK(f, site, v.Pos(), "every path from the call to the next verification or write crosses a test of its result")
+				}
+			}
 			// writes only after the verification loop ended
 			c.Clause("R2", "C09.5")
 			loopDone := eng.CondEdges(f, `rangeindex.*len\(command\.Operations\)$`, false)
@@ -477,17 +525,79 @@ func runC09(c *eng.Ctx, thorough bool) {
 		}
 	}
 	if clo := apply; clo != nil {
-		// only a commit failure of a transaction is turned into a per-entry verdict
-		for _, f := range eng.Closures(apply) {
-			app := eng.Calls(f, `^append$`)
-			_ = app
+		// only a commit failure of a transaction is turned into a per-entry verdict; any other
+		// error (a node-local bolt error, say) fails the whole batch on this replica
+		kv, okc := c.P.ConstValue("raft.fsmEntryTxErrorKey")
+		if !okc {
+			c.Unresolved("raft.fsmEntryTxErrorKey")
+		}
+		nv := 0
+		for _, f := range append([]*ssa.Function{apply}, eng.Closures(apply)...) {
 			for _, st := range eng.Instrs(f, func(in ssa.Instruction) bool {
 				s, ok := in.(*ssa.Store)
-				return ok && strings.Contains(eng.Expr(s.Addr), "complit.Key") && strings.Contains(eng.Expr(s.Val), "fsmEntryTxErrorKey")
+				if !ok {
+					return false
+				}
+				fa, ok := s.Addr.(*ssa.FieldAddr)
+				if !ok || eng.FieldVar(fa) == nil || eng.FieldVar(fa).Name() != "Key" || !strings.Contains(fa.X.Type().String(), "FSMEntry") {
+					return false
+				}
+				cst, ok := s.Val.(*ssa.Const)
+				return ok && cst.Value != nil && (cst.Value.ExactString() == kv || eng.Expr(cst) == kv || eng.Expr(cst) == strconv.Quote(kv))
 			}) {
+				nv++
 				c.Clause("R2", "C09.5")
 				c.Cut(f, "conflict verdict entry", []ssa.Instruction{st}, eng.G(f, `^errors\.Is\(\)$`, true), nil)
 				c.Cut(f, "conflict verdict entry", []ssa.Instruction{st}, eng.G(f, `getInTx\(\)$`, true), nil)
+				// what errors.Is compares with
+				c.Clause("R5", "C09.5")
+				for _, is := range eng.Calls(f, `^errors\.Is$`) {
+					c.Prov(f, "error class turned into a verdict", is, is.Common().Args[1], `^global:physical\.ErrTransactionCommitFailure$`)
+				}
+			}
+			// the batch error is cleared only on that arm
+			for _, e := range eng.PhiEdges(f, "err", func(v ssa.Value) bool { return eng.IsNilConst(v) }) {
+				_ = e
+			}
+		}
+		c.Clause("R2", "C09.5")
+		c.Floor(apply, "conflict verdict entry (FSMEntry{Key: fsmEntryTxErrorKey})", nv, 1)
+		// applyState receives the batch-invariant latest index, the command's offset in the batch and its log index
+		for _, f := range append([]*ssa.Function{apply}, eng.Closures(apply)...) {
+			for _, as := range eng.Calls(f, `fsmTxnCommitIndexTracker\)\.applyState$`) {
+				a := as.Common().Args
+				c.Clause("R5", "C09.4")
+				s1, s2, s3 := eng.ExprDeep(a[1]), eng.ExprDeep(a[2]), eng.ExprDeep(a[3])
+				if strings.Contains(s1, "latestIndex") && strings.Contains(s1, "Load") {
+					c.OK(f, "applyState latest index", as.Pos(), s1)
+				} else {
+					c.Violation(f, "applyState latest index", as.Pos(), "applyState's latest index is "+s1+", not f.latestIndex.Load()", nil)
+				}
+				if strings.Contains(s2, "rangeindex") {
+					c.OK(f, "applyState command offset", as.Pos(), s2)
+				} else {
+					c.Violation(f, "applyState command offset", as.Pos(), "the command's offset in the batch is "+s2+", not the loop index over the batch: the fast path would fire for commands that are not first in their batch", nil)
+				}
+				if strings.Contains(s3, "logs[") && strings.HasSuffix(s3, ".Index") && strings.Contains(s3, "rangeindex") {
+					c.OK(f, "applyState log index", as.Pos(), s3)
+				} else {
+					c.Violation(f, "applyState log index", as.Pos(), "the command's log index is "+s3+", not logs[i].Index of the same i", nil)
+				}
+			}
+		}
+	}
+	// writes are recorded under the command's own log index
+	for _, pr := range []struct{ fn, callee string }{
+		{"raft.(*fsmTxnCommitIndexApplicationState).logWrite", `fsmTxnCommitIndexTracker\)\.logWrite$`},
+		{"raft.(*fsmTxnCommitIndexApplicationState).finishTxn", `fsmTxnCommitIndexTracker\)\.logTxnWrites$`},
+	} {
+		if f := c.Fn(pr.fn); f != nil {
+			c.Clause("R5", "C09.4")
+			cs := eng.Calls(f, pr.callee)
+			if c.Floor(f, "tracker record call", len(cs), 1) {
+				for _, cl := range cs {
+					c.Prov(f, "index a write is recorded under", cl, cl.Common().Args[1], `^field:s\.commandIndex$`)
+				}
 			}
 		}
 	}
